@@ -359,6 +359,17 @@ def rule_reader_exact(fb, res):
         for d, es in local_defs(g).items():
             if any(x.get("k") == "un" and x.get("op") == "*" and pdecl in reads(x) for e in es for x in walk(e)) and len(es) == 1:
                 lens.add(d)
+        # ... or filled by a raw copy from the pointer (memcpy(&length, ptr, sizeof length)), possibly byte-swapped afterwards
+        for c in g.calls():
+            ca = facts.copy_args(c)
+            if ca is not None:
+                d0 = strip_all_casts(ca[0])
+                if d0.get("k") == "un" and d0.get("op") == "&" and strip_all_casts(d0["e"]).get("dk") == "local" and pdecl in reads(ca[1]):
+                    raw = strip_all_casts(d0["e"])["decl"]
+                    lens.add(raw)
+                    for d, es in local_defs(g).items():
+                        if len(es) == 1 and raw in reads(es[0]) and (callee_name(strip_all_casts(es[0])) or "").endswith("swapEndian"):
+                            lens.add(d)
         cfg = g.cfg
         from rules.c03 import remaining_views
         rviews = remaining_views(g, ends, pdecl)
@@ -718,7 +729,11 @@ def run(ctx):
         if not (direct or via_lambda):
             continue
         for i, a in enumerate(args):
-            ln = strip_all_casts(a)
+            ln = strip_all_casts(facts.expand(fs, a, keep=(lenv,)))
+            if ln.get("k") == "ref" and ln.get("dk") == "local":
+                cd = facts.current_definition(fs, ln)  # a named count computed after the length was rounded
+                if cd is not None:
+                    ln = strip_all_casts(cd)
             if ln.get("k") == "bin" and ln.get("op") == "-" and lenv in reads(ln) and strp in reads(ln):
                 tail = c
                 tail_src = args[1] if direct else next((x for j, x in enumerate(args) if j != i), None)
